@@ -708,6 +708,37 @@ func freeUploads(steps []UStep, cat *Catalog, n int) []string {
 	return out
 }
 
+// oneSidedRepos (always, first thing, on empty members): content that only member 1 holds, in a
+// repository member 0 does not know at all, read by digest through the unifier; then the mirror
+// image in another repository.
+func oneSidedRepos(rnd *rand.Rand, cat *Catalog) []UStep {
+	var steps []UStep
+	var blobs, mans []string
+	for _, c := range cat.Contents {
+		if c.Man && c.Natural == "image" && c.As["image"].WF && c.As["image"].Subject == "-" {
+			mans = append(mans, c.ID)
+		} else if !c.Man && len(c.Elems) >= 1 && !containsBlock(c.Elems) {
+			blobs = append(blobs, c.ID)
+		}
+	}
+	perm := rnd.Perm(len(cat.Repos))
+	for side, via := range []string{"m1", "m0"} {
+		r := cat.Repos[perm[side%len(perm)]]
+		b := blobs[rnd.Intn(len(blobs))]
+		steps = append(steps, UStep{Via: via, Op: Op{Op: "PushBlob", R: r, C: b, DD: b, DS: len(cat.byID[b].Data)}, First: -1})
+		reads := []Op{{Op: "GetBlob", R: r, C: b}, {Op: "ResolveBlob", R: r, C: b}, {Op: "GetBlobRange", R: r, C: b, O0: 0, O1: 1}}
+		if len(mans) > 0 {
+			m := mans[rnd.Intn(len(mans))]
+			for _, o := range pushWithDeps(cat, r, "-", m) {
+				steps = append(steps, UStep{Via: via, Op: o, First: -1})
+			}
+			reads = append(reads, Op{Op: "GetManifest", R: r, C: m}, Op{Op: "ResolveManifest", R: r, C: m})
+		}
+		steps = append(steps, viaU(reads)...)
+	}
+	return steps
+}
+
 func viaU(ops []Op) []UStep {
 	steps := make([]UStep, len(ops))
 	for i, o := range ops {
@@ -722,7 +753,8 @@ func genUnifyScenario(rnd *rand.Rand, cat *Catalog, i int) UScenario {
 	switch i % 5 {
 	case 0, 1: // the union view over different members, then writes through the unifier
 		sc.Kind = "view"
-		sc.Steps = divergentPrefix(rnd, cat, hot)
+		sc.Steps = oneSidedRepos(rnd, cat)
+		sc.Steps = append(sc.Steps, divergentPrefix(rnd, cat, hot)...)
 		sc.Steps = append(sc.Steps, readSweep(rnd, cat, hot, i%5 == 0)...)
 		sc.Steps = append(sc.Steps, asymWrites(rnd, cat, hot)...)
 		sc.Steps = append(sc.Steps, faultyWrites(rnd, cat, hot)...)
